@@ -47,4 +47,31 @@ def judge (kind : String) (model : Option String) (impl : String) : String :=
           s!"fail:prefix:{kind} delivered entries differ from the well-formed prefix, expected {m.take 80}"
         else s!"fail:outcome:{kind} expected {m.take 80}"
 
+/-- grpc/json files (jsoniter decides which lines are valid, so the Spec is judged on the shape of the observation):
+`nLines` = number of scanner lines of the file, `blank i` = line `i` is certainly not JSON (empty / white space).
+* with `continue_on_error` every line is delivered, valid or invalidated (`:I`), and the run ends well;
+* without it the run delivers valid entries only, and either all lines (end ok) or a proper prefix followed by an error. -/
+def grpcJudge (coe : Bool) (nLines : Nat) (blank : Nat → Bool) (impl : String) : String :=
+  match crashVerdict "grpc/json provider" impl with
+  | some v => v
+  | none =>
+    if containsSub impl "oom-guard" then "skip:oom-guard" else
+    let n := (kvOf impl "n").toNat?.getD 0
+    let es := if n == 0 then [] else (kvOf impl "e").splitOn ","
+    let endS := kvOf impl "end"
+    let invalidAt (i : Nat) : Bool := ((es[i]?).getD "").endsWith ":I"
+    let blankAccepted := (List.range es.length).any fun i => blank i && !invalidAt i
+    if n != es.length then "fail:driver:entry count and entry list differ"
+    else if blankAccepted then "fail:accepted:grpc/json provider delivered a blank line as a valid ammo"
+    else if coe then
+      if endS == "ok" && n == nLines then "ok"
+      else s!"fail:skipped:grpc/json provider with continue_on_error must deliver every line (valid or invalidated) and end well, expected n={nLines} end=ok"
+    else
+      if (List.range es.length).any invalidAt then "fail:outcome:grpc/json provider delivered an invalidated ammo without continue_on_error"
+      else if endS == "ok" then
+        if n == nLines then "ok" else s!"fail:prefix:grpc/json provider ended well after {n} of {nLines} lines"
+      else if endS.startsWith "err" then
+        if n < nLines then "ok" else s!"fail:outcome:grpc/json provider reported an error after delivering all {nLines} lines"
+      else s!"fail:outcome:grpc/json provider unexpected end {endS}"
+
 end Pandora.Spec.C13
